@@ -1,13 +1,41 @@
-(** Property C10 — statements only. Each theorem is closed by [exact] of a lemma
-    proved elsewhere and followed by [Print Assumptions]. *)
-From CR Require Import Base Atomic Machine LinksFacts HeapFacts TraceFacts Local.
+(** Property C10 — destructors may use the API re-entrantly during a collection.
+    The machine runs destructor scripts as ordinary steps between the atomic
+    library steps, so "at every re-entry point" is "in every configuration". *)
+From Coq Require Import Permutation.
+From CR Require Import Base Atomic Machine LinksFacts HeapFacts TraceFacts TraceTotal Local StackBound
+  Termination Perm StdRc StdRefine Tokens InvDef InvLemmas ActBase ActHandles ActAdopt ActMove ActConsume
+  StepFrames StepPanic Purge GroupOps DropDec Group DropLast StepInv RunInv Consequences Common.
 Local Open Scope N_scope.
 
-Theorem C10_dead_handle_drop_partial :
-  forall pri s k u o b,
-  getb (heap_of s) o = Ok b -> is_dead (strong b) = true ->
-  step pri {| st := s; stack := FDropStrong o :: k; unw := u |} =
-  Running {| st := s; stack := k; unw := u |}.
-Proof. exact step_drop_dead. Qed.
-Print Assumptions C10_dead_handle_drop_partial.
+(** every script action — create, clone, drop (possibly starting a nested
+    collection), adopt, unadopt, downgrade, upgrade, store, take, the consuming
+    API — on objects that are not being destroyed, plus clone/drop/upgrade/count
+    on dying peers ([act_safe]), preserves the invariant and does not fault *)
+Theorem C10_every_action_preserves_invariant :
+  forall a, act_preserves a.
+Proof. exact act_inv. Qed.
+Print Assumptions C10_every_action_preserves_invariant.
 
+Theorem C10_invariant_at_every_reentry_point :
+  forall pri c c', steps pri c c' -> Inv_cfg c -> Inv_cfg c'.
+Proof. exact steps_inv. Qed.
+Print Assumptions C10_invariant_at_every_reentry_point.
+
+Theorem C10_no_fault_under_reentrancy :
+  forall pri c c' s' h, steps pri c c' -> Inv_cfg c -> step_hyp c' ->
+  step pri c' = Halted s' h -> h = HAbort.
+Proof. exact steps_no_fault. Qed.
+Print Assumptions C10_no_fault_under_reentrancy.
+
+(** C01-C06 for the objects touched are instances: e.g. upgrade of a Weak to a
+    dying peer from inside a destructor yields None *)
+Theorem C10_upgrade_dying_peer_is_none :
+  forall s self pc k wr dst o, Inv s (ctx self pc k) ->
+  resolve_weak s self wr = Some (Some o) -> reg_free s dst = true ->
+  exists b, getb (heap_of s) o = Ok b /\
+    (value b <> None <-> live b = true) /\
+    (live b = false -> exec_act s self (AUpgrade wr dst) = AO s self RNone []) /\
+    (live b = true -> exists s', exec_act s self (AUpgrade wr dst) = AO s' self RSome [] /\
+        reg_get s' dst = RStrong o).
+Proof. exact upgrade_iff_alive. Qed.
+Print Assumptions C10_upgrade_dying_peer_is_none.
